@@ -45,12 +45,34 @@ pub enum Mismatch {
 #[derive(Clone, Debug, Default, PartialEq, Eq, Hash, Serialize, Deserialize)]
 pub struct Plan {
     pub script: Vec<usize>,
+    /// responses of coordination RPCs are delivered as separate actions
+    #[serde(default)]
+    pub split_replies: bool,
+    /// when the script is exhausted, choose by this strategy instead of "first enabled"
+    #[serde(default)]
+    pub strategy: Option<Strategy>,
     pub inject: Option<(When, usize, Stray)>,
     pub cancel: Option<(When, usize)>,
     /// fail (instead of deliver) the first coordination RPC of this kind from -> to
     pub fail_rpc: Option<(RpcKind, usize, usize)>,
     pub mismatch: Option<Mismatch>,
     pub uuid: u128,
+}
+
+#[derive(Clone, Debug, PartialEq, Eq, Hash, Serialize, Deserialize)]
+pub enum Strategy {
+    /// deliver responses only when nothing else is enabled
+    RepliesLast,
+    /// deliver requests only when nothing else is enabled
+    RequestsLast,
+    /// nothing towards party p (requests to it, responses to it, its schedule) unless nothing else is enabled
+    Starve(usize),
+    /// hold back this kind of RPC (requests and responses) as long as possible
+    HoldKind(RpcKind),
+    /// SplitMix-driven uniform choice
+    Random(u64),
+    /// always the last enabled action
+    Last,
 }
 
 #[derive(Clone, Debug, Default, Serialize)]
@@ -74,12 +96,36 @@ pub struct Obs {
     pub target_scheduled_before: bool,
     pub failed_rpc: bool,
     pub steps: usize,
+    /// the choices actually taken (replayable as `script`)
+    pub choices: Vec<usize>,
 }
 
 #[derive(Clone, Copy, Debug, PartialEq)]
 enum Act {
     Schedule(usize),
     Deliver(usize),
+}
+
+fn strategy_pick(st: &Strategy, enabled: &[Act], pend: &[(usize, RpcKind, usize, usize, bool)], rng: &mut crate::sim::sched::Mix) -> usize {
+    let info = |a: &Act| -> (Option<RpcKind>, usize, bool) {
+        match a {
+            Act::Schedule(p) => (None, *p, false),
+            Act::Deliver(id) => {
+                let p = pend.iter().find(|x| x.0 == *id).unwrap();
+                // a response travels back to the caller (`from`)
+                (Some(p.1), if p.4 { p.2 } else { p.3 }, p.4)
+            }
+        }
+    };
+    let prefer = |pred: &dyn Fn(&Act) -> bool| -> usize { enabled.iter().position(|a| pred(a)).unwrap_or(0) };
+    match st {
+        Strategy::RepliesLast => prefer(&|a| !info(a).2),
+        Strategy::RequestsLast => prefer(&|a| info(a).2 || matches!(a, Act::Schedule(_))),
+        Strategy::Starve(p) => prefer(&|a| info(a).1 != *p),
+        Strategy::HoldKind(k) => prefer(&|a| info(a).0 != Some(*k)),
+        Strategy::Random(_) => rng.below(enabled.len()),
+        Strategy::Last => enabled.len() - 1,
+    }
 }
 
 /// State of party p as far as the history determines it.
@@ -113,6 +159,11 @@ pub async fn explore(cfg: &SrvConfig, plan: &Plan, baseline_threads: usize) -> O
     let n = cfg.n();
     let world = SrvWorld::new(n, cfg.concurrency);
     let ctl = world.ctl.clone();
+    ctl.inner.lock().unwrap().split_replies = plan.split_replies;
+    let mut strat_rng = crate::sim::sched::Mix(match &plan.strategy {
+        Some(Strategy::Random(s)) => *s,
+        _ => 1,
+    });
     let id = Uuid::from_u128(plan.uuid | 1);
     let mut policies: Vec<_> = (0..n).map(|p| cfg.policy(p, id)).collect();
     match &plan.mismatch {
@@ -238,7 +289,8 @@ pub async fn explore(cfg: &SrvConfig, plan: &Plan, baseline_threads: usize) -> O
                 enabled.push(Act::Schedule(p));
             }
         }
-        let pend = ctl.pending_ids();
+        let pend_full = ctl.pending_full();
+        let pend: Vec<(usize, RpcKind, usize, usize)> = pend_full.iter().map(|p| (p.0, p.1, p.2, p.3)).collect();
         for (pid, _, _, _) in &pend {
             enabled.push(Act::Deliver(*pid));
         }
@@ -246,7 +298,12 @@ pub async fn explore(cfg: &SrvConfig, plan: &Plan, baseline_threads: usize) -> O
             break;
         }
         obs.branching.push(enabled.len());
-        let choice = plan.script.get(step).copied().unwrap_or(0).min(enabled.len() - 1);
+        let choice = match (plan.script.get(step), &plan.strategy) {
+            (Some(c), _) => (*c).min(enabled.len() - 1),
+            (None, Some(st)) => strategy_pick(st, &enabled, &pend_full, &mut strat_rng),
+            (None, None) => 0,
+        };
+        obs.choices.push(choice);
         match enabled[choice] {
             Act::Schedule(p) => {
                 ctl.event(LogEv::Action(format!("schedule {p}")));
@@ -258,6 +315,13 @@ pub async fn explore(cfg: &SrvConfig, plan: &Plan, baseline_threads: usize) -> O
                     let r = h.schedule(pol).await.map_err(|e| format!("{e:?}"));
                     c2.event(LogEv::ScheduleDone { party: p, result: r });
                 }));
+            }
+            Act::Deliver(pid) if pend_full.iter().any(|x| x.0 == pid && x.4) => {
+                let (_, kind, from, to, _) = *pend_full.iter().find(|x| x.0 == pid).unwrap();
+                let kname = format!("{kind:?}").to_lowercase();
+                obs.coverage.push("response-delayed".into());
+                ctl.event(LogEv::Action(format!("deliver response {kname} {to}->{from}")));
+                ctl.decide(pid, Decision::Deliver);
             }
             Act::Deliver(pid) => {
                 let (_, kind, from, to) = *pend.iter().find(|x| x.0 == pid).unwrap();
